@@ -19,6 +19,7 @@ int w_dm_added_removed_d(int null_diff, int kind, int decl_only, unsigned long n
 int w_static_dm_d(int null_diff, int kind, int decl_only, unsigned long nins, unsigned long ndel, int i0s, int i1s, int d0s, int d1s);
 int w_virt_fn(int null_diff, int fmem, int smem, int fvirt, int svirt, unsigned long fo, unsigned long so);
 int w_crc(int null_diff, int kind, int fsym, int ssym, unsigned long fcrc, unsigned long scrc);
+int w_virt_d(int null_diff, int kind, int class_verdict, int fmem, int smem, int fvirt, int svirt, unsigned long fo, unsigned long so);
 #define POST(c) __CPROVER_assert(c, "postcondition: " #c)
 void h_parms(void)
 {
@@ -165,4 +166,17 @@ void h_crc(void)
   int r = w_crc(in_null, in_kind, in_fsym, in_ssym, in_fcrc, in_scrc);
   POST((r != 0) == (!in_null && (in_kind == 2 || in_kind == 6) && in_fsym && in_ssym && in_fcrc != 0 && in_scrc != 0 && in_fcrc != in_scrc));
   CANARY_h_crc;
+}
+/* The overload categorize_harmful_diff_node calls: the class verdict on a class diff (assumed callee contract),
+   the function verdict (proved in h_virt_fn) on a function diff, false on any other node. */
+void h_virt_d(void)
+{
+  int in_null = nondet_int() != 0, in_kind = nondet_int(), in_cv = nondet_int() != 0;
+  int in_fm = nondet_int() != 0, in_sm = nondet_int() != 0, in_fv = nondet_int() != 0, in_sv = nondet_int() != 0;
+  unsigned long in_fo = nondet_ulong(), in_so = nondet_ulong();
+  __CPROVER_assume(in_kind >= 0 && in_kind <= 6);
+  int r = w_virt_d(in_null, in_kind, in_cv, in_fm, in_sm, in_fv, in_sv, in_fo, in_so);
+  int fn_verdict = in_fm && in_sm && (in_fv != in_sv || in_fo != in_so);
+  POST((r != 0) == (!in_null && ((in_kind == 3 && in_cv) || (in_kind == 2 && fn_verdict))));
+  CANARY_h_virt_d;
 }
